@@ -2103,7 +2103,10 @@ func (w *World) runTape() {
 		}
 		w.apply(acts[v%len(acts)])
 		w.tr.TapeUsed = i + 1
-		if i%16 == 15 {
+		if n := w.c.Cfg.DrainEvery; n > 0 && i%n == n-1 {
+			w.drainDeliveries()
+			w.snapshot("idle")
+		} else if i%16 == 15 {
 			w.snapshot("idle")
 		}
 	}
